@@ -489,6 +489,9 @@ func cmdCheck(o checkOpts) int {
 			}
 			continue
 		}
+		if !e.Ready {
+			continue // engines under construction run only when named with --engine
+		}
 		for _, p := range e.Props {
 			if p == o.prop {
 				serving = append(serving, e)
